@@ -75,6 +75,13 @@ def MExpr.eval (σ : String → Nat) : MExpr → Bool
   | .cond v vals thn els => if vals.contains (σ v) then thn.eval σ else els.eval σ
   | .neg e => !e.eval σ
 
+/-- the file type `MDD.dump(fname)` infers: `.pdf`, `.dot`, otherwise `ValueError` (after the
+graph has been built) -/
+def mDumpKind (t : MTbl) (fname : String) : Except Err String :=
+  if fname.endsWith ".pdf" then .ok "pdf"
+  else if fname.endsWith ".dot" then .ok "dot"
+  else .error .value
+
 /-- `iter(mdd)`: the keys of `_succ` -/
 def mIterNodes (t : MTbl) : List Nat := (if t.term then [1] else []) ++ t.succ.keys
 
